@@ -16,8 +16,9 @@
    writes neither journal nor counters, PossDup copies and gap fills are not journaled; the former class KF_D12 is gone
    (C09_resend_keeps_journal); and WITH the round-3 repairs: an in-sequence peer Logout is counted and journaled (former
    class D22: C09_peer_logout_counted, C09_accepted_counted), a ResendRequest that cannot be served does not leave the
-   state in RESENDREQ_HANDLING.  The D14 class (death between transport write and journal write) does not break
-   Stored_eq; it is exhibited by its own refuted theorem. *)
+   state in RESENDREQ_HANDLING; and WITH the round-8 repairs: send_msg journals before it writes to the transport (former
+   class D14: C09_no_number_reuse holds for every crash point of a send), non-Logon traffic during the Logon exchange drops
+   the connection / is refused. *)
 From Coq Require Import ZArith List Bool.
 From AF Require Import Fix.Restart Lemmas.RestartL.
 Import ListNotations.
@@ -97,35 +98,47 @@ Theorem C09_restart_resumes : forall r h, class_free h = true ->
 Proof. exact restart_resumes_history. Qed.
 Print Assumptions C09_restart_resumes.
 
-(* a send that completed its journal write: the frame went out under next_num_out; an endpoint restarted after a death at
-   that point resumes with the next number, and in every class-free continuation (further restarts included) every
-   original frame it hands to the transport carries a larger number *)
-Theorem C09_no_number_reuse : forall r h m w1,
+(* former D14 (repaired: send_msg journals BEFORE it writes to the transport).  An original send that completed, and a
+   death right after ANY of its effects (INSERT, counter UPDATE, COMMIT, transport write, drain; k = number of effects
+   of the incarnation executed): the restarted endpoint satisfies the invariant, its next_num_out is the old one or the
+   old one + 1 - the latter whenever the frame reached the transport - and in every class-free continuation (further
+   restarts included) every original frame it hands to the transport carries a number ABOVE every original number the
+   transport ever saw *)
+Theorem C09_no_number_reuse : forall r h m w1 k,
   class_free h = true -> own_number m = false ->
   let w := run (fresh r) h in
   send_msg m w = (inl tt, w1) ->
-  let w2 := crash_at (length (log w1)) w1 in
-  writes (log w1) = writes (log w) ++ [out_frame m (nout w)]
-  /\ nin w2 = nin w /\ nout w2 = nout w + 1
+  (length (log w) <= k <= length (log w1))%nat ->
+  let w2 := crash_at k w1 in
+  let f := out_frame m (nout w) in
+  log w1 = log w ++ send_effects f
+  /\ Inv w2 /\ nin w2 = nin w
+  /\ (nout w2 = nout w \/ nout w2 = nout w + 1)
+  /\ (In f (allwire w2) -> nout w2 = nout w + 1)
   /\ forall h', class_free h' = true ->
-       forall f, In f (skipn (length (allwire w2)) (allwire (run w2 h'))) -> original f = true -> nout w < f_seq f.
+       forall g f', In g (allwire w2) -> original g = true ->
+                    In f' (skipn (length (allwire w2)) (allwire (run w2 h'))) -> original f' = true ->
+                    f_seq g < f_seq f'.
 Proof. exact no_number_reuse. Qed.
 Print Assumptions C09_no_number_reuse.
 
-(* D14: death after the transport write of a send and before its journal write: the frame is on the wire, the restarted
-   endpoint has the old next_num_out and sends a DIFFERENT original message under the same number *)
-Theorem C09_crash_before_journal_refuted :
-  exists r h m k h', class_free h = true /\ own_number m = false /\
-    let w := run (fresh r) h in
-    exists w1, send_msg m w = (inl tt, w1) /\
-    (length (log w) < k < length (log w1))%nat /\
-    In (EWrite (out_frame m (nout w))) (firstn k (log w1)) /\
-    let w2 := crash_at k w1 in
-    nout w2 = nout w /\
-    exists f_old f_new, In f_old (allwire w2) /\ In f_new (writes (log (run w2 h')))
-      /\ original f_old = true /\ original f_new = true /\ f_seq f_old = f_seq f_new /\ f_old <> f_new.
-Proof. exact crash_before_journal_refuted. Qed.
-Print Assumptions C09_crash_before_journal_refuted.
+(* the former D14 witness, all six crash points of the send of an application message: next_num_out restored and what
+   the transport saw after the Logon *)
+Example C09_send_crash_points :
+  length (log (run (fresh Acceptor) acc_logon)) = 8%nat /\ length (log w_send9) = 13%nat
+  /\ map (fun k => (nout (crash_at k w_send9), skipn 1 (allwire (crash_at k w_send9)))) [8; 9; 10; 11; 12; 13]%nat
+     = [(2, []); (2, []); (2, []); (3, []); (3, [app_frame 2 9]); (3, [app_frame 2 9])].
+Proof. exact send_crash_points_example. Qed.
+Print Assumptions C09_send_crash_points.
+
+(* death after the journal commit and before the transport write: the journaled, unsent message is recovered by the
+   peer's ResendRequest as a PossDup copy (legitimate: the message really was lost) *)
+Example C09_journaled_unwritten_recovered :
+  let w2 := run (crash_at 11 w_send9) [OConnect; OIn (logon_frame 2); OIn (mkF TResend 3 false 2 0)] in
+  st w2 = Active /\ nin w2 = 4 /\ nout w2 = 4
+  /\ writes (log w2) = [logon_frame 3; mkF TApp 2 true 9 0; mkF TSeqReset 3 false 4 1].
+Proof. exact journaled_unwritten_recovered. Qed.
+Print Assumptions C09_journaled_unwritten_recovered.
 
 (* former D22 (repaired: an in-sequence Logout of the peer is counted and journaled before the session is torn down):
    the peer sent 1 (Logon) and 2 (Logout); next_num_in is 3, stored 2; after the restart the peer's Logon numbered 3 is
@@ -139,14 +152,22 @@ Example C09_peer_logout_counted :
 Proof. exact peer_logout_counted_example. Qed.
 Print Assumptions C09_peer_logout_counted.
 
-(* on an established connection (any state past NETWORK_CONN_ESTABLISHED) every in-sequence application message, Heartbeat,
-   TestRequest and Logout is counted and journaled under its own number; from ANY world satisfying the invariant *)
+(* once the Logon exchange has completed (RESENDREQ_HANDLING, RECV_SEQNUM_TOO_HIGH, RESENDREQ_AWAITING, ACTIVE) every in-sequence
+   application message, Heartbeat, TestRequest and Logout is counted and journaled under its own number; from ANY world
+   satisfying the invariant *)
 Theorem C09_accepted_counted : forall f w, Inv w -> counted_type (f_type f) = true -> f_seq f = nin w ->
-  is_disc (st w) = false -> cstate_eqb (st w) NCE = false ->
+  established (st w) = true ->
   let w' := run_op w (OIn f) in
   nin w' = nin w + 1 /\ sin (jt w') = nin w /\ Inv w'.
 Proof. exact accepted_counted. Qed.
 Print Assumptions C09_accepted_counted.
+
+(* before that, nothing but Logon / Logout is acceptable: the connection is dropped, nothing counted, nothing delivered *)
+Example C09_logon_exchange_gate :
+  let w := run (fresh Initiator) [OConnect; OSend (logon_frame 0); OIn (app_frame 1 5)] in
+  st w = Disc /\ nin w = 1 /\ sin (jt w) = 0 /\ dlv w = [] /\ writes (log w) = [logon_frame 1].
+Proof. exact logon_exchange_gate_example. Qed.
+Print Assumptions C09_logon_exchange_gate.
 
 (* ... and the Logout also ends the session *)
 Theorem C09_peer_logout_counted_general : forall f w, Inv w -> f_type f = TLogout -> f_seq f = nin w ->
